@@ -56,5 +56,14 @@ Definition scan_with_cache (c : dircache) (root_mtime : Z) (cached real : list s
   if dc_hit c root_mtime then cached else real.
 
 (* ---------- resume state ---------- *)
-Definition plan_resume (completed : list path) (src : list sentry) : list sentry :=
-  filter (fun e => negb (existsb (peqb (se_path e)) completed)) src.
+(* a completed record: path, size and checksum of the version the interrupted run transferred.  Since `fix: a path recorded as
+   completed in the resume state is skipped only while the source file is unchanged` a listed path is left out of the plan
+   only if the source entry still has that size and checksum *)
+Record completed := mk_completed { cp_path : path; cp_size : N; cp_sum : N }.
+
+Definition still_completed (comp : list completed) (e : sentry) : bool :=
+  se_is_dir e && existsb (fun r => peqb (cp_path r) (se_path e)) comp ||
+  existsb (fun r => peqb (cp_path r) (se_path e) && N.eqb (cp_size r) (se_size e) && N.eqb (cp_sum r) (se_content e)) comp.
+
+Definition plan_resume (comp : list completed) (src : list sentry) : list sentry :=
+  filter (fun e => negb (still_completed comp e)) src.
